@@ -10,11 +10,5 @@ THEOREMS = chanlib.names("C02")
 
 def run(ctx):
     chanlib.standard_run(ctx, "Fv.Props.C02", THEOREMS, [])
-    for mod in ("spscb", "mpsc3b", "mpmc2b", "rdvb"):
-        # step-level (layer B) obligations/ties of the lock-free cores, provided by their own modules
-        p = os.path.join(os.path.dirname(__file__), mod + ".py")
-        if os.path.exists(p) and os.environ.get("VERIF_CHAN_LAYERB", "0") == "1":
-            import importlib
-            m = importlib.import_module(mod)
-            if hasattr(m, "obligations"): m.obligations(ctx)
-            if hasattr(m, "tie"): m.tie(ctx)
+    # step-level (layer B) obligations/ties of the lock-free cores, provided by their own modules
+    chanlib.layer_b(ctx, chanlib.LAYER_B_ALL)
